@@ -305,6 +305,8 @@ class AbstractOnlineSpecification(AbstractSpecification):
 
     # forwarding pastify
     def pastify(self):
+        # in discrete time the bounds have to be multiples of the sampling period
+        self.pastifier.discrete_time = isinstance(self.online_interpreter, DiscreteTimeInterpreter)
         self.ast = self.pastifier.pastify(self.ast)
 
     # forwarding to interpreter
